@@ -1138,10 +1138,15 @@ pub(crate) fn pad(ident: usize, f: &mut fmt::Formatter<'_>) -> fmt::Result {
 
 /// For backwards compatibility
 pub fn get_root_node_struct(data: &[u8]) -> Result<TLVElement<'_>, Error> {
-    // TODO: Check for trailing data
     let element = TLVElement::new(data);
 
     element.structure()?;
+
+    // The structure must be properly terminated and there must be no trailing data after it:
+    // a message whose envelope was damaged or extended in flight is not to be processed
+    if element.total_len()? != data.len() {
+        Err(ErrorCode::InvalidData)?;
+    }
 
     Ok(element)
 }
